@@ -72,19 +72,38 @@ func makeBatchQuery(filters []Filter) (string, []interface{}) {
 
 		if len(group.columns) == 1 {
 			column := group.columns[0]
-			clause.WriteString(column)
-			clause.WriteString(" IN (")
-			for j, tuple := range group.tuples {
-				// Separate tuples with commas.
-				if j > 0 {
+			// NULL never compares equal, also not in an IN list: nil values need
+			// their own IS NULL test.
+			hasNull := false
+			numValues := 0
+			for _, tuple := range group.tuples {
+				if tuple[0] == nil {
+					hasNull = true
+					continue
+				}
+				if numValues == 0 {
+					clause.WriteString(column)
+					clause.WriteString(" IN (")
+				} else {
+					// Separate tuples with commas.
 					clause.WriteString(", ")
 				}
+				numValues++
 
 				// Write (?, ?, ?) string for the tuple, and append the arguments.
 				clause.WriteString("?")
 				args = append(args, tuple...)
 			}
-			clause.WriteString(")")
+			if numValues > 0 {
+				clause.WriteString(")")
+			}
+			if hasNull {
+				if numValues > 0 {
+					clause.WriteString(" OR ")
+				}
+				clause.WriteString(column)
+				clause.WriteString(" IS NULL")
+			}
 		} else {
 
 			for i, tuple := range group.tuples {
@@ -99,9 +118,13 @@ func makeBatchQuery(filters []Filter) (string, []interface{}) {
 						clause.WriteString(" AND ")
 					}
 					clause.WriteString(column)
-					clause.WriteString("=?")
+					if tuple[j] == nil {
+						clause.WriteString(" IS NULL")
+					} else {
+						clause.WriteString("=?")
+						args = append(args, tuple[j])
+					}
 				}
-				args = append(args, tuple...)
 				if len(group.columns) > 1 {
 					clause.WriteString(")")
 				}
